@@ -292,6 +292,15 @@ func vfC14RenderWrite(e vfdoubles.LogEntry) (string, bool) {
 		for _, k := range a[2:] {
 			ks = append(ks, kseq(string(k)))
 		}
+		// one ZREM is atomic: member order is not an observable (both sides sort)
+		sort.SliceStable(ks, func(i, j int) bool {
+			x, e1 := strconv.ParseInt(ks[i], 10, 64)
+			y, e2 := strconv.ParseInt(ks[j], 10, 64)
+			if e1 == nil && e2 == nil {
+				return x < y
+			}
+			return ks[i] < ks[j]
+		})
 		return "zrem " + strings.Join(ks, ","), true
 	case "zadd", "set", "hdel", "hsetnx":
 		return "?" + e.Cmd() + " " + vfutil.Hex(a[1]), true
